@@ -1564,3 +1564,193 @@ def called_elsewhere(w, method, known):
     idx[method] = out
   return sorted(q for q in idx[method] if q not in known and
                 not any(q.startswith(k + ".") for k in known))
+
+
+# ---------------------------------------------------------------------------------------------
+# private anchors by role (round 3): a rule names a private helper by its qualified name; when
+# that name is gone (renamed, or a self-less method moved to module level / back) the helper is
+# found by what it does. The name is only the first guess.
+
+def _np(fi):
+  ps = fi.params()
+  return ps[1:] if ps[:1] in (["self"], ["cls"]) else ps
+
+
+def _has_call(fi, pred):
+  return any(isinstance(x, ast.Call) and pred(x) for x in walk_no_nested(fi.node))
+
+
+def _role_adjustments_to_action(fi):
+  ps = _np(fi)
+  return len(ps) == 2 and _has_call(
+    fi, lambda c: endswith(dotted(c.func), "BulkUpdateRecord") and c.args and
+    text(c.args[0]) == ps[0] + ".table_id")
+
+
+def _role_multimap_add(fi):
+  ps = _np(fi)
+  return len(ps) == 3 and _has_call(
+    fi, lambda c: isinstance(c.func, ast.Attribute) and c.func.attr == "setdefault" and
+    text(c.func.value) == ps[0] and c.args and text(c.args[0]) == ps[1])
+
+
+def _role_multimap_remove(fi):
+  ps = _np(fi)
+  return len(ps) == 3 and _has_call(
+    fi, lambda c: isinstance(c.func, ast.Attribute) and c.func.attr == "remove" and
+    text(c.func.value) == "%s[%s]" % (ps[0], ps[1]) and [text(a) for a in c.args] == [ps[2]])
+
+
+def _role_at(fi):
+  ps = _np(fi)
+  return len(ps) == 1 and any(isinstance(x, ast.Subscript) and text(x.value) == "self._row_ids"
+                              and text(x.slice) == ps[0] for x in ast.walk(fi.node)) and \
+      _has_call(fi, lambda c: text(c.func) == "self._table.Record")
+
+
+def _role_bisect_index(fi):
+  ps = _np(fi)
+  return len(ps) == 3 and _has_call(
+    fi, lambda c: isinstance(c.func, ast.Name) and c.func.id == ps[0] and c.args and
+    text(c.args[0]) == "self._row_ids")
+
+
+def _role_bisect_find(fi):
+  ps = _np(fi)
+  return len(ps) == 4 and any(
+    isinstance(x, ast.BinOp) and isinstance(x.op, ast.Add) and
+    ps[1] in (text(x.left), text(x.right)) for x in ast.walk(fi.node)) and \
+      _has_call(fi, lambda c: any(text(a) == ps[0] for a in c.args) or
+                any(text(k.value) == ps[0] for k in c.keywords))
+
+
+def _role_find_eq(fi):
+  return fi.node.args.vararg is not None and not _np(fi) and fi.cls is not None and \
+      _has_call(fi, lambda c: text(c.func) == "self._table.Record" and c.args and
+                isinstance(c.args[0], ast.Constant) and c.args[0].value == 0)
+
+
+def _role_sorted_lookup(fi):
+  kw = [a.arg for a in fi.node.args.kwonlyargs]
+  return "group_by" in kw and "order_by" in kw and not fi.name.isupper() and \
+      _has_call(fi, lambda c: isinstance(c.func, ast.Attribute) and
+                c.func.attr == "lookup_records")
+
+
+def _role_do_adjust_range(fi):
+  return _has_call(fi, lambda c: text(c.func) == "self._adjustments.add") and \
+      _has_call(fi, lambda c: text(c.func) == "self._insertions.add")
+
+
+def _role_reset_sorted_versions(fi):
+  return len(_np(fi)) == 2 and _has_call(
+    fi, lambda c: isinstance(c.func, ast.Attribute) and c.func.attr == "pop" and
+    isinstance(c.func.value, ast.Attribute) and c.func.value.attr == "sorted_versions")
+
+
+def _role_trigger_dependencies(fi):
+  return _has_call(fi, lambda c: endswith(dotted(c.func), "dep_graph.add_edge")) and \
+      any(isinstance(x, ast.Name) and x.id == "SingleRowsIdentityRelation"
+          for x in ast.walk(fi.node))
+
+
+def _role_recompute_step(fi):
+  return _has_call(fi, lambda c: isinstance(c.func, ast.Attribute) and c.func.attr == "get" and
+                   isinstance(c.func.value, ast.Attribute) and
+                   c.func.value.attr == "_prevent_recompute_map")
+
+
+def _role_rebuild_model(fi):
+  return any(isinstance(x, ast.Attribute) and x.attr == "_summary_source_table" and
+             isinstance(x.ctx, ast.Store) for x in ast.walk(fi.node)) and fi.name != "__init__"
+
+
+def _role_add_update_summary_col(fi):
+  return sum(1 for x in ast.walk(fi.node)
+             if isinstance(x, ast.FunctionDef) and x is not fi.node and
+             any(isinstance(d, ast.Call) and endswith(dotted(d.func), "formulaType")
+                 for d in x.decorator_list)) >= 2
+
+
+def _role_list_to_value_unique(fi):
+  return len(_np(fi)) == 1 and any(
+    isinstance(x, ast.Raise) and x.exc is not None and
+    "UniqueReferenceError" in text(x.exc) for x in ast.walk(fi.node))
+
+
+def _role_do_fast_lookup(fi):
+  ps = _np(fi)
+  return len(ps) == 1 and _has_call(
+    fi, lambda c: isinstance(c.func, ast.Attribute) and c.func.attr == "lookup_by_key" and
+    c.args and isinstance(c.args[0], ast.Name) and c.args[0].id == ps[0])
+
+
+ANCHOR_ROLES = {
+  "column._adjustments_to_action": _role_adjustments_to_action,
+  "column._multimap_add": _role_multimap_add,
+  "column._multimap_remove": _role_multimap_remove,
+  "records.RecordSet._at": _role_at,
+  "records.RecordSet._bisect_index": _role_bisect_index,
+  "records.RecordSet._bisect_find": _role_bisect_find,
+  "records.RecordSet._find_eq": _role_find_eq,
+  "functions.prevnext._sorted_lookup": _role_sorted_lookup,
+  "relabeling.ListWithAdjustments._do_adjust_range": _role_do_adjust_range,
+  "lookup.LookupMapColumn._reset_sorted_versions": _role_reset_sorted_versions,
+  "lookup.LookupMapColumn._do_fast_lookup": _role_do_fast_lookup,
+  "engine.Engine._maybe_update_trigger_dependencies": _role_trigger_dependencies,
+  "engine.Engine._recompute_step": _role_recompute_step,
+  "table.Table._rebuild_model": _role_rebuild_model,
+  "table.Table._add_update_summary_col": _role_add_update_summary_col,
+  "column.ReferenceColumn._list_to_value": _role_list_to_value_unique,
+}
+
+
+def resolve_anchor(repo, qualname):
+  """FuncInfo of a private anchor: the function of that name, or -- when the name is gone -- the
+  only private function of the same module (a method of the same class, of a class related to
+  it, or a module-level function) that plays the anchor's role. None when there is no role for
+  it or no unique candidate."""
+  fi = repo.funcs.get(qualname)
+  if fi is not None:
+    return fi
+  role = ANCHOR_ROLES.get(qualname)
+  if role is None:
+    return None
+  # module of the anchor: the longest prefix that is a module name
+  parts = qualname.split(".")
+  mod = None
+  for k in range(len(parts) - 1, 0, -1):
+    mod = repo.modules.get(".".join(parts[:k]))
+    if mod is not None:
+      break
+  if mod is None:
+    return None
+  cands = []
+  for f in repo.all_functions():
+    if f.module is not mod or f.parent is not None:
+      continue
+    if not (f.name.startswith("_") and not f.name.startswith("__")):
+      continue
+    try:
+      if role(f):
+        cands.append(f)
+    except Exception:
+      continue
+  return cands[0] if len(cands) == 1 else None
+
+
+def aname(w, qualname):
+  """Current short name of a (possibly renamed) private anchor; the original one when it cannot
+  be resolved (the caller's own look-up then reports the vanished anchor)."""
+  fi = resolve_anchor(w.repo, qualname)
+  return fi.name if fi is not None else qualname.split(".")[-1]
+
+
+def calls_anchor(w, fn, call, qualname):
+  """The call is to the anchor (by its current name), written as a plain name, self.<name>,
+  or <anything>.<name>."""
+  nm = aname(w, qualname)
+  d = fn.name(call.func) or dotted(call.func)
+  if d is not None:
+    return d == nm or d.endswith("." + nm)
+  return isinstance(call.func, ast.Attribute) and call.func.attr == nm
